@@ -76,6 +76,9 @@ type niCase struct {
 	// light: an expensive verifier (2048-bit moduli, many repetitions): changed contexts,
 	// a few structurally chosen component alterations and count changes only
 	light bool
+	// heavy: one verification costs tens of seconds (128 repetitions over 2048-bit Paillier):
+	// light, and only the first / last element of the largest repeated arrays altered
+	heavy bool
 	id    string // e.g. "schnorr/k256"
 	pname string // sigma.Name of the protocol
 	L     int    // challenge bytes
